@@ -366,11 +366,11 @@ theorem imported_never_hit (v : Variant) (he : v.emptyNotCurrent = true) (rs : L
 
 /-- **cache safety**: after any history of recordings, process deaths, restarts and imports (repaired code), every
 shallow hit in the destination is one the recording rules justify (C03.history_shallow_sound). -/
-theorem cache_safe (v : Variant) (hv : v.atomicCallNode = true) (hc : v.cseSubtreeFromDb = true)
+theorem cache_safe (v : Variant) (hc : v.cseSubtreeFromDb = true)
     (he : v.emptyNotCurrent = true) {db : Db} {res : List JobRes} (h : C03.Hist v db res)
     (t a : H) (reg : List H) (n : NodeRow) (hit : getCallNode v db t a reg = some n) :
     C03.Covers db n.call reg :=
-  C03.history_shallow_sound v hv hc he h t a reg n hit
+  C03.history_shallow_sound v hc he h t a reg n hit
 
 /-- unrepaired `_get_call_node`: the destination serves what the source refuses -/
 theorem cache_safe_refuted_current :
